@@ -100,6 +100,8 @@ type Engine struct {
 	accOn     bool
 	accLib    bool
 	lastPanic string
+	clockMax  T
+	clockBase *T
 	wantWitness bool
 	panicAcc  T
 	panicMsgs []string
